@@ -328,6 +328,9 @@ func preflightErrorClassRule(c *Ctx) {
 						}
 					case id == pkgMeta+".IsNoMatchError", id == "strings.Contains":
 						definite = true
+					case id == "slices.Contains" && f.Pol && len(call.Common().Args) == 2 && p.constantStringList(call.Common().Args[0]):
+						// membership in an enumerated list of reasons
+						definite = true
 					case strings.HasPrefix(id, pkgAPIErr+".Is"):
 						definite = true
 					default:
@@ -1080,4 +1083,60 @@ func (p *Program) classifierEnumerates(fn *ssa.Function) bool {
 		}
 	}
 	return sawTrue
+}
+
+// constantStringList: v is a slice literal, or the load of a package-level slice variable that is
+// initialised with a literal and never written elsewhere, whose elements are all string constants.
+func (p *Program) constantStringList(v ssa.Value) bool {
+	v = stripConv(v)
+	allConst := func(elems []ssa.Value) bool {
+		if len(elems) == 0 {
+			return false
+		}
+		for _, e := range elems {
+			if _, ok := constString(e); !ok {
+				return false
+			}
+		}
+		return true
+	}
+	if elems, ok := sliceElems(v); ok {
+		return allConst(elems)
+	}
+	ld, ok := v.(*ssa.UnOp)
+	if !ok || ld.Op != token.MUL {
+		return false
+	}
+	g, ok := ld.X.(*ssa.Global)
+	if !ok || g.Pkg == nil {
+		return false
+	}
+	// exactly one store to the global in the whole program: the initialiser
+	var stored ssa.Value
+	n := 0
+	for _, fn := range p.Funcs {
+		for _, b := range fn.Blocks {
+			for _, in := range b.Instrs {
+				if st, ok := in.(*ssa.Store); ok && st.Addr == ssa.Value(g) {
+					n++
+					stored = st.Val
+				}
+			}
+		}
+	}
+	if init := g.Pkg.Func("init"); init != nil {
+		for _, b := range init.Blocks {
+			for _, in := range b.Instrs {
+				if st, ok := in.(*ssa.Store); ok && st.Addr == ssa.Value(g) {
+					n++
+					stored = st.Val
+				}
+			}
+		}
+	}
+	if n != 1 || stored == nil {
+		return false
+	}
+	elems, ok := sliceElems(stored)
+	return ok && allConst(elems)
 }
